@@ -245,8 +245,8 @@ def run_check(prop, tier="quick", seed=0, jobs=None, spec=None):
             prop, machine, agg, cr, findings, budget_s=scale(tier, 120, 600), env_of=spec.get("env_of"))
         # witnesses of fixed findings (and unexpected violations of open ones) are ordinary regressions
         for f, backend, case, v in wviols:
-            os.makedirs(os.path.join(runner.VERIF, "replays"), exist_ok=True)
-            path = os.path.join(runner.VERIF, "replays", "%s-%s-witness-%s.json" % (prop, backend, f["id"]))
+            os.makedirs(os.path.join(runner.OUT, "replays"), exist_ok=True)
+            path = os.path.join(runner.OUT, "replays", "%s-%s-witness-%s.json" % (prop, backend, f["id"]))
             c = dict(case)
             c.update({"property": prop, "machine": f["witness"].get("machine", machine), "backend": backend,
                       "expect": {"signature": runner.vsig(f["witness"].get("machine", machine), v), "violation": v}})
